@@ -1,5 +1,6 @@
 import PsV.Model.FitsWrite
 import PsV.Model.FitsBytes
+import PsV.Model.FitsCrash
 import PsV.Driver.Common
 /-! Driver for C08: runs the control-flow model on observed environments, the encoder, the crash-state builder and
     the byte-level reader.  Stateful line protocol (see harness/c08_harness.cpp). -/
@@ -82,7 +83,7 @@ def toOp (enc : Bytes) (ws : List String) : Option Op :=
 
 def stateAt (st : St) (k : Nat) : St :=
   let (k0, s0) := if st.cacheK ≤ k then (st.cacheK, st.cache) else (0, [])
-  let s := ((st.ops.toList.drop k0).take (k - k0)).foldl applyOp s0
+  let s := applyOps s0 ((st.ops.toList.drop k0).take (k - k0))
   { st with cacheK := k, cache := s }
 
 def envOf (ss : List String) : Env := fun i => (ss.getD i "0") == "0"
@@ -108,7 +109,15 @@ def runE (variant : String) (sh : Shape) (env : Env) : String :=
     | "c" => let r := cWrapper true (writeFitsPre3 sh env); fmt r.1 r.2
     | "mem" => res (writeFitsMemPre3 sh env)
     | _ => let r := cWrapper true (writeFitsMemPre3 sh env); fmt r.1 r.2
-  new ++ " | old " ++ old ++ " | pre3 " ++ pre3
+  -- what the run leaves under the file name (disk model of Model/FitsCrash.lean; nothing there before, no operation
+  -- log needed: only "a file / no file" is compared with the implementation)
+  let disk := match variant with
+    | "cpp" | "c" =>
+      let d (ra : Bool) := (diskAfter (coreSteps sh) ⟨env, fun _ => [], false, ra⟩ none).isSome
+      -- a clean-up call which reports an error may or may not have removed the file
+      if d false != d true then "either" else if d false then "present" else "absent"
+    | _ => "n/a"
+  new ++ " | old " ++ old ++ " | pre3 " ++ pre3 ++ " | disk " ++ disk
 
 /-- `off hex off hex …`: overwrite the bytes at the given offsets -/
 def patch (bs : Bytes) : List String → Option Bytes
@@ -130,7 +139,7 @@ partial def handle (st : St) (ws : List String) : St × String :=
       let enc := encode t
       let rt := readCoreBytes enc == some t.core
       ({ table := some t, enc := enc, ops := #[], cacheK := 0, cache := [] },
-       s!"enc {enc.length} {fnv enc} rt={if rt then 1 else 0}")
+       s!"enc {enc.length} {fnv enc} rt={if rt then 1 else 0} wf={if t.wf then 1 else 0}")
   | "O" :: rest =>
     match toOp st.enc rest with
     | none => (st, "bad-input")
@@ -147,15 +156,16 @@ partial def handle (st : St) (ws : List String) : St × String :=
     match k.toNat?, b.toNat?, st.table with
     | some k, some b, some t =>
       let st := stateAt st k
-      let s := match st.ops[k]? with
-        | some (.pwrite off data) => applyOp st.cache (.pwrite off (data.take b))
-        | _ => st.cache
-      (st, verdict t s)
+      (st, verdict t (crashStep st.cache st.ops[k]? b))
     | _, _, _ => (st, "bad-input")
   | ["P", n] =>
     match n.toNat?, st.table with
     | some n, some t => (st, verdict t (st.enc.take n))
     | _, _ => (st, "bad-input")
+  | ["A"] =>
+    -- hypotheses of C08_crash_safe on the recorded log: it writes front to back, and its result is the encoding
+    let st := stateAt st st.ops.size
+    (st, s!"ao={if appendOnly 0 st.ops.toList then 1 else 0} fin={if st.cache == st.enc then 1 else 0}")
   | ["Z", b] =>
     match b.toNat?, st.table with
     | some b, some t => (st, verdict t (st.enc.take (2880 * b) ++ List.replicate 2880 0 ++ st.enc.drop (2880 * (b + 1))))
